@@ -54,6 +54,7 @@ type bWorld struct {
 	reqs     []*flyio.Access
 	cavLists [][]macaroon.Caveat
 	sameNonce []string
+	sameTail  []string
 }
 
 func newBWorld(r *rng.R) *bWorld {
@@ -338,8 +339,22 @@ func (w *bWorld) pool() (perms, dis, junk []string) {
 	sBad := str(&dvBad)
 	// right ticket, wrong secret
 	fake, _ := macaroon.New(p1.TicketsForThirdParty(bLocs[1])[0], bLocs[1], macaroon.NewSigningKey())
-	dis = []string{d1, d2a, d2b, dx, str(fake), str(pforeign), sA, sB, sBad}
-	w.sameNonce = []string{sA, sB, sBad}
+	// same nonce AND same tail as the genuine discharge, but an extra (unsigned) caveat: never verifies
+	dvTail := *dv
+	dvTail.UnsafeCaveats = *macaroon.NewCaveatSet(&macaroon.ValidityWindow{NotBefore: 1, NotAfter: 1 << 40})
+	dvTail.Tail = append([]byte{}, dv.Tail...)
+	sTail := str(&dvTail)
+	dis = []string{d1, d2a, d2b, dx, str(fake), str(pforeign), sA, sB, sBad, sTail}
+	w.sameNonce = []string{sA, sB, sBad, sTail}
+	// forgeries of the plain permission token that keep its nonce and tail: caveats stripped / one appended without signing
+	pStrip := *p0
+	pStrip.UnsafeCaveats = *macaroon.NewCaveatSet()
+	pStrip.Tail = append([]byte{}, p0.Tail...)
+	pPlus := *p0
+	pPlus.UnsafeCaveats = *macaroon.NewCaveatSet(append(append([]macaroon.Caveat{}, p0.UnsafeCaveats.Caveats...), &flyio.Organization{ID: 2, Mask: resset.ActionAll})...)
+	pPlus.Tail = append([]byte{}, p0.Tail...)
+	w.sameTail = []string{str(p0), str(&pStrip), str(&pPlus)}
+	perms = append(perms, str(&pStrip))
 	junk = []string{"fo1_abc", "hello", "fm2_!!!", "fm2_" + "AAAA", "", "fm1r_" + strings.TrimPrefix(str(p0), "fm2_")}
 	_ = r
 	return
@@ -361,6 +376,17 @@ func genBundle(c *ctx, cached bool) {
 			st.Add(&cs.Case{Coq: "(KBun (mkTab [] [] [] []) [] [])", Class: "ttl-expiry", Nontrivial: true, Desc: map[string]any{"what": "real-time TTL: miss, hit inside the TTL, then a presentation after the first entry's expiry"}, OracleFail: f})
 		} else {
 			st.Add(&cs.Case{Coq: "(KBun (mkTab [] [] [] []) [CNew 0%N true 1%nat] [[]])", Class: "ttl-expiry", Nontrivial: true, Desc: map[string]any{"what": "real-time TTL scenario (1 s): passed"}})
+		}
+	}
+	if !cached {
+		// Verify, Attenuate with a third-party caveat, Validate without verifying again: the bundle's only token now has an
+		// undischarged third-party caveat, so the bundle must refuse (the attenuated token's string is random -- fresh seal
+		// nonces -- hence an implementation-side oracle rather than a model operation)
+		for i := 0; i < 10; i++ {
+			if f := bundleAttenuate3P(c.r.Fork()); f != "" {
+				st.Add(&cs.Case{Coq: "(KBun (mkTab [] [] [] []) [] [])", Class: "attenuate-3p", Nontrivial: true, Desc: map[string]any{"what": "Verify; Attenuate(third-party caveat); Validate"}, OracleFail: f})
+				break
+			}
 		}
 	}
 	for i := 0; i < n; i++ {
@@ -488,13 +514,24 @@ func genBundle(c *ctx, cached bool) {
 		}
 		if cached && r.P(1, 4) {
 			// the same permission token with discharges that share a nonce but differ in caveats / signature
-			order := []string{w.sameNonce[0], w.sameNonce[1], w.sameNonce[2]}
+			order := append([]string{}, w.sameNonce...)
 			r3 := r.Fork()
 			sort.Slice(order, func(a, b int) bool { return r3.Bool() })
 			for _, d := range order {
 				s := parseHdr(perms[1] + "," + d)
 				verifyCached(s)
 				rec(coqw.App("BValidate", coqw.N(s), coqw.N(0)), []int64{b2i64x(w.slots[s].Validate(w.reqs[0]) == nil)})
+			}
+		} else if cached && r.P(1, 4) {
+			// permission tokens that share nonce and tail (the genuine one and forgeries of it) through one cache
+			order := append([]string{}, w.sameTail...)
+			r3 := r.Fork()
+			sort.Slice(order, func(a, b int) bool { return r3.Bool() })
+			for _, t := range order {
+				s := parseHdr(t)
+				verifyCached(s)
+				q := uint64(r.Intn(len(w.reqs)))
+				rec(coqw.App("BValidate", coqw.N(s), coqw.N(q)), []int64{b2i64x(w.slots[s].Validate(w.reqs[q]) == nil)})
 			}
 		} else {
 			parse()
@@ -731,3 +768,43 @@ func (w *bWorld) headerObs(b *bundle.Bundle) []int64 {
 	}
 	return zl(ids)
 }
+
+// bundleAttenuate3P: the bundle-level half of "an added third-party caveat makes the token demand its discharge":
+// Verify, then Attenuate with a third-party caveat, then Validate WITHOUT verifying again must refuse; and after a fresh
+// Verify without the new discharge the token fails.  Implementation-side oracle (returns "" when fine).
+func bundleAttenuate3P(r *rng.R) string {
+	key := macaroon.NewSigningKey()
+	ka := macaroon.NewEncryptionKey()
+	m, _ := macaroon.New([]byte("k"), "https://perm.test", key)
+	m.Add(&flyio.Organization{ID: 1, Mask: resset.ActionAll})
+	hdr, _ := m.String()
+	b, _ := bundle.ParseBundle("https://perm.test", hdr)
+	if _, err := b.Verify(context.Background(), bundle.WithKey([]byte("k"), key, nil)); err != nil {
+		return "setup: " + err.Error()
+	}
+	one := uint64(1)
+	acc := &flyio.Access{OrgID: &one, Action: resset.ActionRead}
+	if b.Validate(acc) != nil {
+		return "setup: verified token does not clear"
+	}
+	c3, _ := macaroon.NewCaveat3P(ka, "https://tp.test")
+	extra := []macaroon.Caveat{c3}
+	if r.Bool() {
+		rd := resset.ActionRead
+		extra = append([]macaroon.Caveat{&rd}, extra...)
+	}
+	if err := b.Attenuate(extra...); err != nil {
+		return "setup: attenuate: " + err.Error()
+	}
+	if b.Validate(acc) == nil {
+		return "bundle clears a request right after Attenuate added a third-party caveat (no discharge presented, not re-verified)"
+	}
+	if len(b.UndischargedTicketsForThirdParty("https://tp.test")) != 1 {
+		return "attenuated bundle does not report the new undischarged ticket"
+	}
+	if _, err := b.Verify(context.Background(), bundle.WithKey([]byte("k"), key, nil)); err == nil {
+		return "attenuated token verifies without the discharge for the added third-party caveat"
+	}
+	return ""
+}
+
